@@ -40,3 +40,7 @@ Fixpoint loc_subfeatures (f : feature) (anc : list feature) : list lfeat :=
 (* fuel that is enough for every translated function on a tree / on a constraint *)
 Definition fuel_tree (f : feature) : nat := S (S (fsize f)).
 Definition fuel_node (n : node) : nat := 2 * nsize n + 3.
+
+(* fuel that is enough for the writers: the tree plus every constraint *)
+Definition fuel_ctcs (cs : list ctc) : nat := list_sum (map (fun c => fuel_node (c_ast c)) cs).
+Definition fuel_model (m : fm) : nat := fuel_tree (root m) + fuel_ctcs (ctcs m).
